@@ -25,6 +25,8 @@ pub struct GenCfg {
     /// user identifiers drawn from pools of Go keywords, predeclared names, runtime helper
     /// and compiler-temporary look-alikes (C19)
     pub hostile_names: bool,
+    /// traits, trait / inherent impls, method calls in every form, bounded generics, `dyn Tr`
+    pub traits: bool,
     /// bias towards closures (C08), generics (C07), effects (C09)
     pub focus: Focus,
 }
@@ -36,6 +38,7 @@ pub enum Focus {
     Generics,
     Effects,
     Scopes,
+    Traits,
 }
 
 impl GenCfg {
@@ -54,6 +57,7 @@ impl GenCfg {
             strings: true,
             floats: true,
             hostile_names: false,
+            traits: false,
             focus: Focus::None,
         }
     }
@@ -150,6 +154,13 @@ pub struct Gen<'a, 'd> {
     phantom_fns: HashSet<usize>,
     /// generic functions that call themselves at permuted type arguments (last parameter = fuel)
     polyrec_fns: HashSet<usize>,
+    /// trait bounds of the type parameters of the function being generated
+    cur_bounds: Vec<Vec<usize>>,
+    /// traits 0..usable_traits are complete (all impls generated): usable for dyn / bounds
+    usable_traits: usize,
+    /// methods (indices into fns) whose bodies are complete: callable statically
+    usable_methods: Vec<usize>,
+    closure_depth: u32,
 }
 
 fn is_printable_ty(t: &Ty) -> bool {
@@ -185,6 +196,10 @@ impl<'a, 'd> Gen<'a, 'd> {
             closure_ret_fns: HashSet::new(),
             phantom_fns: HashSet::new(),
             polyrec_fns: HashSet::new(),
+            cur_bounds: vec![],
+            usable_traits: 0,
+            usable_methods: vec![],
+            closure_depth: 0,
         }
     }
 
@@ -473,6 +488,310 @@ impl<'a, 'd> Gen<'a, 'd> {
         }
     }
 
+
+    // ------------------------------------------------------ traits and impls
+
+    /// a closed type for method signatures (no `Self`, no trait objects)
+    fn sig_ty(&mut self) -> Ty {
+        self.ty(1)
+    }
+
+    /// types a trait can be implemented for: nominal types (a generic one at one instance),
+    /// integers, string, bool — told apart at run time by their outermost shape
+    fn impl_targets(&mut self) -> Vec<Ty> {
+        let mut out = vec![Ty::i32(), Ty::Str, Ty::Bool];
+        if self.cfg.wide_ints {
+            out.push(Ty::Int(ALL_IK[1 + self.d.below(ALL_IK.len() - 1)]));
+        }
+        for i in 0..self.p.adts.len() {
+            let n = self.p.adts[i].tparams;
+            let args: Vec<Ty> = (0..n)
+                .map(|_| match self.d.below(3) {
+                    0 => Ty::Str,
+                    1 => Ty::Bool,
+                    _ => Ty::i32(),
+                })
+                .collect();
+            // nominal types twice: they are the common case
+            out.push(Ty::Adt(i, args.clone()));
+            out.push(Ty::Adt(i, args));
+        }
+        out
+    }
+
+    fn same_head(a: &Ty, b: &Ty) -> bool {
+        match (a, b) {
+            (Ty::Adt(x, _), Ty::Adt(y, _)) => x == y,
+            _ => a == b,
+        }
+    }
+
+    fn gen_method(&mut self, impl_idx: usize, name: String, self_ty: &Ty, extra: &[Ty], ret: &Ty) -> usize {
+        self.scope.clear();
+        self.cur_tparams = 0;
+        self.cur_bounds.clear();
+        let idx = self.p.fns.len();
+        self.p.fns.push(FnDef::default());
+        let sv = self.new_var_named("self".into(), self_ty.clone(), true);
+        let mut taken = vec!["self".to_string()];
+        let mut params = vec![(sv, self_ty.clone())];
+        for t in extra {
+            params.push((self.new_param(t.clone(), &mut taken), t.clone()));
+        }
+        let body = self.block(ret, 3);
+        self.scope.clear();
+        self.p.fns[idx] = FnDef { name, tparams: 0, params, ret: ret.clone(), body, owner: Some(impl_idx), bounds: vec![] };
+        idx
+    }
+
+    fn gen_traits(&mut self) {
+        if !self.cfg.traits {
+            return;
+        }
+        let nt = match self.cfg.focus {
+            Focus::Traits => 1 + self.d.below(2),
+            _ => self.d.below(3),
+        };
+        for t in 0..nt {
+            let nm = 1 + self.d.below(2);
+            let mut methods = vec![];
+            for m in 0..nm {
+                let np = self.d.below(3);
+                let params: Vec<Ty> = (0..np).map(|_| self.sig_ty()).collect();
+                let ret = self.sig_ty();
+                methods.push(TraitSig { name: format!("m{t}x{m}"), params, ret });
+            }
+            self.p.traits.push(TraitDef { name: format!("Tr{t}"), methods: methods.clone() });
+            self.label("trait");
+            let k = 1 + self.d.below(3);
+            let mut done: Vec<Ty> = vec![];
+            for _ in 0..k {
+                let cands = self.impl_targets();
+                let ty = cands[self.d.below(cands.len())].clone();
+                if done.iter().any(|x| Self::same_head(x, &ty)) {
+                    continue;
+                }
+                done.push(ty.clone());
+                let impl_idx = self.p.impls.len();
+                self.p.impls.push(ImplDef { trait_: Some(t), for_ty: ty.clone(), methods: vec![] });
+                let mut fs = vec![];
+                for sig in &methods {
+                    fs.push(self.gen_method(impl_idx, sig.name.clone(), &ty, &sig.params, &sig.ret));
+                }
+                self.p.impls[impl_idx].methods = fs.clone();
+                self.usable_methods.extend(fs);
+                match &ty {
+                    Ty::Adt(_, a) if !a.is_empty() => self.label("impl:generic-instance"),
+                    Ty::Adt(..) => self.label("impl:adt"),
+                    _ => self.label("impl:prim"),
+                }
+            }
+            self.usable_traits = t + 1;
+        }
+        // inherent impls on non-generic nominal types
+        for a in 0..self.p.adts.len() {
+            if self.p.adts[a].tparams > 0 || !self.d.chance(if self.cfg.focus == Focus::Traits { 140 } else { 70 }) {
+                continue;
+            }
+            let ty = Ty::Adt(a, vec![]);
+            let impl_idx = self.p.impls.len();
+            self.p.impls.push(ImplDef { trait_: None, for_ty: ty.clone(), methods: vec![] });
+            let nm = 1 + self.d.below(2);
+            let mut fs = vec![];
+            for m in 0..nm {
+                let np = self.d.below(3);
+                let params: Vec<Ty> = (0..np).map(|_| self.sig_ty()).collect();
+                let ret = self.sig_ty();
+                let f = self.gen_method(impl_idx, format!("im{a}x{m}"), &ty, &params, &ret);
+                fs.push(f);
+                // a later method of the block may call an earlier one
+                self.usable_methods.push(f);
+            }
+            self.p.impls[impl_idx].methods = fs;
+            self.label("impl:inherent");
+        }
+    }
+
+    /// types implementing every trait of `bounds`
+    fn implementors(&self, bounds: &[usize]) -> Vec<Ty> {
+        let Some(first) = bounds.first() else { return vec![] };
+        self.p
+            .impls
+            .iter()
+            .filter(|i| i.trait_ == Some(*first))
+            .map(|i| i.for_ty.clone())
+            .filter(|t| self.p.implements(t, bounds))
+            .collect()
+    }
+
+    /// implementing types of `tr` a trait object can be made from
+    fn dyn_sources(&mut self, tr: usize) -> Vec<Ty> {
+        let all = self.implementors(&[tr]);
+        let inst_ok = !all.iter().any(|t| matches!(t, Ty::Adt(_, a) if !a.is_empty())) || !self.gates.gated("dyn:generic-instance");
+        all.into_iter().filter(|t| inst_ok || !matches!(t, Ty::Adt(_, a) if !a.is_empty())).collect()
+    }
+
+    /// traits (complete ones) that have a type a trait object can be made from
+    fn dyn_traits(&mut self) -> Vec<usize> {
+        (0..self.usable_traits).filter(|t| !self.dyn_sources(*t).is_empty()).collect()
+    }
+
+    /// an expression of concrete type `ty` whose type is known where it is written
+    /// (a coercion to `dyn` needs that: KF-43): annotated variable, literal, constructor
+    fn known_typed(&mut self, ty: &Ty, fuel: i32) -> Expr {
+        let vars: Vec<VarId> = self.visible().into_iter().filter(|(v, k)| *k && self.var_ty(*v) == ty).map(|(v, _)| v).collect();
+        if !vars.is_empty() && self.d.bool() {
+            return Expr::Var(vars[self.d.below(vars.len())]);
+        }
+        match ty {
+            Ty::Int(k) => self.int_lit(*k),
+            Ty::Str => self.str_lit(),
+            Ty::Bool => Expr::Bool(self.d.bool()),
+            Ty::Adt(a, args) => self.adt_value(*a, args, false, fuel.min(2)),
+            _ => self.const_leaf(ty),
+        }
+    }
+
+    /// a value of type `dyn Tr`: an existing trait object or a coercion site
+    fn dyn_value(&mut self, tr: usize, fuel: i32) -> Expr {
+        let vars: Vec<VarId> =
+            self.visible().into_iter().filter(|(v, _)| self.var_ty(*v) == &Ty::Dyn(tr)).map(|(v, _)| v).collect();
+        if !vars.is_empty() && self.d.chance(150) {
+            self.label("dyn:passed-on");
+            return Expr::Var(vars[self.d.below(vars.len())]);
+        }
+        let srcs = self.dyn_sources(tr);
+        if srcs.is_empty() {
+            // unreachable by construction (dyn types are only made for traits with a source)
+            return Expr::Unit;
+        }
+        let ty = srcs[self.d.below(srcs.len())].clone();
+        self.spend();
+        let src = if fuel > 1 && self.d.chance(50) {
+            let c = self.expr(&Ty::Bool, fuel - 1);
+            let a = self.known_typed(&ty, fuel - 1);
+            let b = self.known_typed(&ty, fuel - 1);
+            self.label("dyn:coerce-if");
+            Expr::If(Box::new(c), Box::new(a), Box::new(b))
+        } else {
+            self.known_typed(&ty, fuel - 1)
+        };
+        self.label("dyn:coerce");
+        match &ty {
+            Ty::Adt(..) => self.label("dyn:from-adt"),
+            _ => self.label("dyn:from-prim"),
+        }
+        Expr::Coerce(tr, Box::new(src))
+    }
+
+    /// method calls whose result type is `t`
+    fn method_calls(&mut self, t: &Ty, fuel: i32) -> Option<Expr> {
+        #[derive(Clone)]
+        enum Cand {
+            Static(usize),
+            Bound(u32, usize, usize),
+            Dyn(VarId, usize, usize),
+        }
+        let mut cands: Vec<Cand> = vec![];
+        for f in &self.usable_methods {
+            if &self.p.fns[*f].ret == t {
+                cands.push(Cand::Static(*f));
+            }
+        }
+        for k in 0..self.cur_tparams {
+            for tr in self.cur_bounds.get(k as usize).cloned().unwrap_or_default() {
+                for (mi, sig) in self.p.traits[tr].methods.iter().enumerate() {
+                    if &sig.ret == t {
+                        // twice: the bounded call is what a bounded function is for
+                        cands.push(Cand::Bound(k, tr, mi));
+                        cands.push(Cand::Bound(k, tr, mi));
+                    }
+                }
+            }
+        }
+        for (v, _) in self.visible() {
+            if let Ty::Dyn(tr) = self.var_ty(v).clone() {
+                for (mi, sig) in self.p.traits[tr].methods.iter().enumerate() {
+                    if &sig.ret == t {
+                        cands.push(Cand::Dyn(v, tr, mi));
+                        cands.push(Cand::Dyn(v, tr, mi));
+                    }
+                }
+            }
+        }
+        if cands.is_empty() {
+            return None;
+        }
+        let c = cands[self.d.below(cands.len())].clone();
+        self.label("method-call");
+        if self.closure_depth > 0 {
+            self.label("method:in-closure");
+        }
+        Some(match c {
+            Cand::Static(f) => {
+                let def = self.p.fns[f].clone();
+                let im = self.p.impls[def.owner.unwrap_or(0)].clone();
+                let extra: Vec<Ty> = def.params.iter().skip(1).map(|(_, t)| t.clone()).collect();
+                if im.trait_.is_some() {
+                    self.label("method:trait-ufcs");
+                    let recv = self.expr(&im.for_ty, fuel - 1);
+                    let mut args = vec![recv];
+                    args.extend(self.call_args(&extra, fuel));
+                    Expr::Call(Callee::Method(f, MForm::TraitUfcs), args)
+                } else {
+                    // `x.m(..)` needs a receiver whose type is known where the call is typed:
+                    // an annotated variable / parameter, or a struct literal
+                    let known: Vec<VarId> =
+                        self.visible().into_iter().filter(|(v, k)| *k && self.var_ty(*v) == &im.for_ty).map(|(v, _)| v).collect();
+                    let is_struct = matches!(&im.for_ty, Ty::Adt(a, _) if matches!(self.p.adts[*a].kind, AdtKind::Struct(_)));
+                    let (recv, form) = match self.d.below(3) {
+                        0 if !known.is_empty() => {
+                            self.label("method:inherent-dot");
+                            (Expr::Var(known[self.d.below(known.len())]), MForm::Dot)
+                        }
+                        1 if is_struct => {
+                            self.label("method:inherent-dot");
+                            self.label("method:dot-on-literal");
+                            let Ty::Adt(a, args) = &im.for_ty else { unreachable!() };
+                            (self.adt_value(*a, args, false, fuel - 1), MForm::Dot)
+                        }
+                        _ => {
+                            self.label("method:inherent-ufcs");
+                            (self.expr(&im.for_ty, fuel - 1), MForm::TypeUfcs)
+                        }
+                    };
+                    let mut args = vec![recv];
+                    args.extend(self.call_args(&extra, fuel));
+                    Expr::Call(Callee::Method(f, form), args)
+                }
+            }
+            Cand::Bound(k, tr, mi) => {
+                let sig = self.p.traits[tr].methods[mi].clone();
+                let recv = self.param_value(&Ty::Param(k));
+                let form = if self.d.bool() {
+                    self.label("method:bound-dot");
+                    MForm::Dot
+                } else {
+                    self.label("method:bound-ufcs");
+                    MForm::TraitUfcs
+                };
+                let mut args = vec![recv];
+                args.extend(self.call_args(&sig.params, fuel));
+                Expr::Call(Callee::Dispatch(tr, mi, form), args)
+            }
+            Cand::Dyn(v, tr, mi) => {
+                let sig = self.p.traits[tr].methods[mi].clone();
+                self.label("method:dyn");
+                if self.closure_depth > 0 {
+                    self.label("method:dyn-in-closure");
+                }
+                let mut args = vec![Expr::Var(v)];
+                args.extend(self.call_args(&sig.params, fuel));
+                Expr::Call(Callee::Dispatch(tr, mi, MForm::TraitUfcs), args)
+            }
+        })
+    }
+
     // -------------------------------------------------------------- helpers
 
     fn str_lit(&mut self) -> Expr {
@@ -519,6 +838,7 @@ impl<'a, 'd> Gen<'a, 'd> {
             }
             Ty::Adt(a, args) => self.adt_value(*a, args, true, 0),
             Ty::Param(_) => self.param_value(t),
+            Ty::Dyn(tr) => self.dyn_value(*tr, 0),
         }
     }
 
@@ -555,7 +875,7 @@ impl<'a, 'd> Gen<'a, 'd> {
         let body = Expr::Block(stmts, Some(Box::new(Expr::Var(v))));
         self.scope = saved_scope;
         let id = self.p.fns.len();
-        self.p.fns.push(FnDef {
+        self.p.fns.push(FnDef { owner: None, bounds: vec![],
             name: format!("mk{}", id),
             tparams: 0,
             params: vec![],
@@ -631,7 +951,7 @@ impl<'a, 'd> Gen<'a, 'd> {
             let v = self.fresh_named("q", t.clone());
             self.scope = saved_scope;
             let id = self.p.fns.len();
-            self.p.fns.push(FnDef {
+            self.p.fns.push(FnDef { owner: None, bounds: vec![],
                 name: format!("as{}", id),
                 tparams: 0,
                 params: vec![(v, t.clone())],
@@ -653,7 +973,7 @@ impl<'a, 'd> Gen<'a, 'd> {
         let v = self.fresh_named("v", t.clone());
         self.scope = saved_scope;
         let id = self.p.fns.len();
-        self.p.fns.push(FnDef {
+        self.p.fns.push(FnDef { owner: None, bounds: vec![],
             name: format!("tick{}", id),
             tparams: 0,
             params: vec![(l, Ty::Str), (v, t.clone())],
@@ -710,6 +1030,18 @@ impl<'a, 'd> Gen<'a, 'd> {
                 Expr::Match(Box::new(e), vec![(Pat::Var(v), Self::concat(parts))])
             }
             Ty::Param(_) => Expr::Str("?".into()),
+            Ty::Dyn(tr) => {
+                // a trait object shows itself through its first method
+                let sig = self.p.traits[*tr].methods[0].clone();
+                let mut args = vec![e];
+                for pt in &sig.params {
+                    let a = self.const_leaf(pt);
+                    args.push(a);
+                }
+                let call = Expr::Call(Callee::Dispatch(*tr, 0, MForm::TraitUfcs), args);
+                let s = self.show(&sig.ret, call);
+                Self::concat(vec![Expr::Str("dyn:".into()), s])
+            }
             Ty::Fn(ps, r) if !self.esc_ok => {
                 // call it in place (the closure must not be passed around)
                 let args: Vec<Expr> = ps.iter().map(|t| self.const_leaf(t)).collect();
@@ -738,7 +1070,7 @@ impl<'a, 'd> Gen<'a, 'd> {
         }
         // reserve the slot first (types are finite trees, no recursion yet)
         let id = self.p.fns.len();
-        self.p.fns.push(FnDef {
+        self.p.fns.push(FnDef { owner: None, bounds: vec![],
             name: format!("show{}", id),
             tparams: 0,
             params: vec![],
@@ -969,6 +1301,7 @@ impl<'a, 'd> Gen<'a, 'd> {
             Ty::Fn(ps, r) => self.closure(ps, r, 0, false),
             Ty::Adt(a, args) => self.adt_value(*a, args, false, 0),
             Ty::Param(_) => self.param_value(t),
+            Ty::Dyn(tr) => self.dyn_value(*tr, 0),
         }
     }
 
@@ -1006,7 +1339,7 @@ impl<'a, 'd> Gen<'a, 'd> {
             let body = self.const_leaf(r);
             self.scope = saved_scope;
             let id = self.p.fns.len();
-            self.p.fns.push(FnDef {
+            self.p.fns.push(FnDef { owner: None, bounds: vec![],
                 name: format!("fv{}", id),
                 tparams: 0,
                 params,
@@ -1059,16 +1392,22 @@ impl<'a, 'd> Gen<'a, 'd> {
             self.callable.retain(|f| !crf.contains(f));
             self.user_fns.retain(|f| !crf.contains(f));
         }
+        self.closure_depth += 1;
         let body = if fuel > 1 && self.d.chance(100) {
             self.block(r, fuel - 1)
         } else {
             self.expr(r, fuel - 1)
         };
+        self.closure_depth -= 1;
         self.callable = saved_callable;
         self.user_fns = saved_user;
         self.scope.truncate(saved);
         if uses_any(&body, &before) {
             self.label("closure:capture");
+            let dyns: HashSet<VarId> = before.iter().copied().filter(|v| matches!(self.var_ty(*v), Ty::Dyn(_))).collect();
+            if uses_any(&body, &dyns) {
+                self.label("closure:captures-dyn");
+            }
         }
         Expr::Closure(params, Box::new(body))
     }
@@ -1093,10 +1432,21 @@ impl<'a, 'd> Gen<'a, 'd> {
         if cands.is_empty() {
             return None;
         }
+        // a bounded type parameter can only be bound to an implementing type
+        cands.retain(|(f, b)| {
+            b.iter().enumerate().all(|(k, x)| match (x, self.p.fns[*f].bounds.get(k)) {
+                (Some(t), Some(bs)) if !bs.is_empty() => self.p.implements(t, bs),
+                _ => true,
+            })
+        });
+        if cands.is_empty() {
+            return None;
+        }
         let (f, b) = cands[self.d.below(cands.len())].clone();
         let targs: Vec<Ty> = b
             .into_iter()
-            .map(|x| x.unwrap_or_else(|| self.ty(1)))
+            .enumerate()
+            .map(|(k, x)| x.unwrap_or_else(|| self.targ_for(f, k, 1)))
             .collect();
         let ps: Vec<Ty> = self.p.fns[f].params.iter().map(|(_, t)| t.subst(&targs)).collect();
         if !targs.is_empty() {
@@ -1109,6 +1459,17 @@ impl<'a, 'd> Gen<'a, 'd> {
         }
         let args = self.call_args(&ps, fuel);
         Some(Expr::Call(Callee::Fn(f, targs), args))
+    }
+
+    /// a type argument for parameter `k` of the generic function `f`
+    fn targ_for(&mut self, f: usize, k: usize, depth: u32) -> Ty {
+        let bs = self.p.fns[f].bounds.get(k).cloned().unwrap_or_default();
+        if bs.is_empty() {
+            return self.ty(depth);
+        }
+        let c = self.implementors(&bs);
+        self.label("generic-call:bounded");
+        c[self.d.below(c.len())].clone()
     }
 
     /// calls of function values in scope returning `t`
@@ -1156,6 +1517,9 @@ impl<'a, 'd> Gen<'a, 'd> {
         if fuel <= 0 || !self.spend() {
             return self.leaf(t);
         }
+        if let Ty::Dyn(tr) = t {
+            return self.dyn_value(*tr, fuel);
+        }
         if matches!(t, Ty::Param(_)) {
             // opaque: a parameter, possibly through a (generic) call or branch
             return match self.d.below(4) {
@@ -1178,8 +1542,13 @@ impl<'a, 'd> Gen<'a, 'd> {
             14,                                                        // 4 fn call
             if self.cfg.closures { 12 } else { 0 },                    // 5 closure value call
             30,                                                        // 6 type-specific construction
+            if self.cfg.traits { if self.cfg.focus == Focus::Traits { 45 } else { 14 } } else { 0 }, // 7 method call
         ];
         match self.d.weighted(&w) {
+            7 => match self.method_calls(t, fuel) {
+                Some(e) => e,
+                None => self.specific(t, fuel),
+            },
             0 => self.leaf(t),
             1 => {
                 let inner = self.expr(t, fuel - 1);
@@ -1392,6 +1761,7 @@ impl<'a, 'd> Gen<'a, 'd> {
             Ty::Fn(ps, r) => self.closure(ps, r, fuel, false),
             Ty::Adt(a, args) => self.adt_value(*a, args, false, fuel),
             Ty::Param(_) => self.param_value(t),
+            Ty::Dyn(tr) => self.dyn_value(*tr, fuel),
         }
     }
 
@@ -1655,8 +2025,16 @@ impl<'a, 'd> Gen<'a, 'd> {
             let s = self.stmt(fuel - 1);
             body.extend(s);
         }
+        // the counter is advanced last, or first with the body ending in a bare unit-typed
+        // expression (an effect in the tail position of the loop body)
+        let tail = if self.d.chance(70) {
+            self.label("while:tail-expr");
+            Some(Box::new(self.expr(&Ty::Unit, fuel - 1)))
+        } else {
+            None
+        };
         self.scope.truncate(saved);
-        body.push(Stmt::Expr(
+        let inc = Stmt::Expr(
             Expr::Call(
                 Callee::Builtin(Builtin::RefSet),
                 vec![
@@ -1665,14 +2043,19 @@ impl<'a, 'd> Gen<'a, 'd> {
                 ],
             ),
             self.d.bool(),
-        ));
+        );
+        if tail.is_some() {
+            body.insert(0, inc);
+        } else {
+            body.push(inc);
+        }
         vec![
             Stmt::Let(
                 Pat::Var(i),
                 None,
                 Expr::Call(Callee::Builtin(Builtin::RefNew), vec![Expr::Int(IK::I32, 0, false)]),
             ),
-            Stmt::Expr(Expr::While(Box::new(cond), Box::new(Expr::Block(body, None))), self.d.bool()),
+            Stmt::Expr(Expr::While(Box::new(cond), Box::new(Expr::Block(body, tail))), self.d.bool()),
         ]
     }
 
@@ -1687,7 +2070,7 @@ impl<'a, 'd> Gen<'a, 'd> {
         let f = cands[self.d.below(cands.len())];
         let n = self.p.fns[f].tparams;
         let targs: Vec<Ty> = (0..n)
-            .map(|_| if self.cfg.focus == Focus::Generics { self.ty(2) } else { self.ty(1) })
+            .map(|k| self.targ_for(f, k as usize, if self.cfg.focus == Focus::Generics { 2 } else { 1 }))
             .collect();
         if !targs.is_empty() {
             self.label("generic-call");
@@ -1786,8 +2169,22 @@ impl<'a, 'd> Gen<'a, 'd> {
             8,                                      // ref_set
             if self.cfg.closures { if self.cfg.focus == Focus::Closures { 60 } else { 10 } } else { 0 }, // let closure
             if self.cfg.containers { 5 } else { 0 }, // vec push chain
+            if self.cfg.traits && self.usable_traits > 0 { if self.cfg.focus == Focus::Traits { 30 } else { 8 } } else { 0 }, // let d: dyn Tr = ..
         ];
         match self.d.weighted(&w) {
+            7 => {
+                let trs = self.dyn_traits();
+                if trs.is_empty() {
+                    let e = self.specific(&Ty::Unit, fuel);
+                    return vec![Stmt::Expr(e, self.d.bool())];
+                }
+                let tr = trs[self.d.below(trs.len())];
+                let e = self.dyn_value(tr, fuel);
+                let t = Ty::Dyn(tr);
+                let v = self.new_var(t.clone(), true);
+                self.label("dyn:let");
+                vec![Stmt::Let(Pat::Var(v), Some(t), e)]
+            }
             0 => {
                 let t = self.ty(2);
                 let e = self.expr(&t, fuel);
@@ -1935,7 +2332,7 @@ impl<'a, 'd> Gen<'a, 'd> {
         self.label("generic-fn");
         self.label("generic-fn:phantom-result");
         self.phantom_fns.insert(idx);
-        self.p.fns[idx] = FnDef {
+        self.p.fns[idx] = FnDef { owner: None, bounds: vec![],
             name: self.item_name(&HOSTILE_FNS, format!("f{}", idx)),
             tparams: if two { 2 } else { 1 },
             params,
@@ -1976,7 +2373,7 @@ impl<'a, 'd> Gen<'a, 'd> {
         self.label("generic-fn");
         self.label("generic-fn:permuted-recursion");
         self.polyrec_fns.insert(idx);
-        self.p.fns[idx] = FnDef {
+        self.p.fns[idx] = FnDef { owner: None, bounds: vec![],
             name: self.item_name(&HOSTILE_FNS, format!("f{}", idx)),
             tparams,
             params,
@@ -2012,9 +2409,35 @@ impl<'a, 'd> Gen<'a, 'd> {
             // never shadowed: a value of type T must stay reachable
             params.push((self.fresh_named("p", t.clone()), t));
         }
+        // trait bounds on the type parameters
+        let mut bounds: Vec<Vec<usize>> = vec![vec![]; tparams as usize];
+        if self.cfg.traits && self.usable_traits > 0 {
+            for k in 0..tparams as usize {
+                if self.d.chance(if self.cfg.focus == Focus::Traits { 200 } else { 110 }) {
+                    let t1 = self.d.below(self.usable_traits);
+                    bounds[k].push(t1);
+                    if self.usable_traits > 1 && self.d.chance(70) {
+                        let t2 = (t1 + 1) % self.usable_traits;
+                        if !self.implementors(&[t1, t2]).is_empty() {
+                            bounds[k].push(t2);
+                            self.label("generic-fn:two-bounds");
+                        }
+                    }
+                    self.label("generic-fn:bounded");
+                }
+            }
+        }
+        self.cur_bounds = bounds.clone();
+        let dyn_trs = if self.cfg.traits { self.dyn_traits() } else { vec![] };
         let n = self.d.below(3);
         let mut taken: Vec<String> = vec![];
         for _ in 0..n {
+            if !dyn_trs.is_empty() && self.d.chance(if self.cfg.focus == Focus::Traits { 80 } else { 30 }) {
+                let t = Ty::Dyn(dyn_trs[self.d.below(dyn_trs.len())]);
+                params.push((self.new_param(t.clone(), &mut taken), t));
+                self.label("fn:dyn-param");
+                continue;
+            }
             let t = if tparams > 0 && self.d.chance(60) {
                 // a type built from a parameter
                 let k = self.d.below(tparams as usize) as u32;
@@ -2089,7 +2512,7 @@ impl<'a, 'd> Gen<'a, 'd> {
             (ret, body)
         };
         self.scope.clear();
-        self.p.fns[idx] = FnDef {
+        self.p.fns[idx] = FnDef { owner: None, bounds,
             name: self.item_name(&HOSTILE_FNS, format!("f{}", idx)),
             tparams,
             params,
@@ -2097,6 +2520,7 @@ impl<'a, 'd> Gen<'a, 'd> {
             body,
         };
         self.cur_tparams = 0;
+        self.cur_bounds.clear();
     }
 
     fn gen_main(&mut self, idx: usize) {
@@ -2122,7 +2546,7 @@ impl<'a, 'd> Gen<'a, 'd> {
             }
         }
         self.scope.clear();
-        self.p.fns[idx] = FnDef {
+        self.p.fns[idx] = FnDef { owner: None, bounds: vec![],
             name: "main".into(),
             tparams: 0,
             params: vec![],
@@ -2133,10 +2557,11 @@ impl<'a, 'd> Gen<'a, 'd> {
 
     pub fn program(mut self) -> GProg {
         self.gen_adts();
+        self.gen_traits();
         let nf = self.d.below(4);
         for _ in 0..nf {
             let idx = self.p.fns.len();
-            self.p.fns.push(FnDef {
+            self.p.fns.push(FnDef { owner: None, bounds: vec![],
                 name: String::new(),
                 tparams: 0,
                 params: vec![],
@@ -2154,7 +2579,7 @@ impl<'a, 'd> Gen<'a, 'd> {
             self.user_fns.push(idx);
         }
         let idx = self.p.fns.len();
-        self.p.fns.push(FnDef {
+        self.p.fns.push(FnDef { owner: None, bounds: vec![],
             name: "main".into(),
             tparams: 0,
             params: vec![],
@@ -2240,7 +2665,7 @@ fn uses_any(e: &Expr, vars: &HashSet<VarId>) -> bool {
 pub fn walk(e: &Expr, f: &mut dyn FnMut(&Expr)) {
     f(e);
     match e {
-        Expr::Un(_, a) | Expr::Proj(a, _) | Expr::Field(a, _, _) | Expr::Go(a) => walk(a, f),
+        Expr::Un(_, a) | Expr::Proj(a, _) | Expr::Field(a, _, _) | Expr::Go(a) | Expr::Coerce(_, a) => walk(a, f),
         Expr::Bin(_, a, b) | Expr::While(a, b) => {
             walk(a, f);
             walk(b, f)
